@@ -478,6 +478,62 @@ fn gen_case(r: &mut StdRng, n: usize) -> Case {
     }
 }
 
+/// Widely spread sets: coordinates on the half-integer grid 0, 1/2, .., 40 (integers 0..80
+/// fed with scaleExp = -1, or another power of two) in 2..4 dimensions, either uniform or as
+/// a few tight islands far apart; eps small relative to the spread, min_samples 1..3.  The
+/// distances range over two orders of magnitude, so the cover tree gets several levels and
+/// nodes with many children -- the situations its branch-and-bound pruning has to get right.
+fn gen_spread_case(r: &mut StdRng) -> Case {
+    let d = *[2usize, 2, 2, 3, 3, 4].choose(r).unwrap();
+    let n = r.gen_range(4..=60usize);
+    let islands = r.gen_bool(0.4);
+    let mut pts: Vec<Vec<i64>> = Vec::with_capacity(n);
+    if islands {
+        let nc = r.gen_range(2..=8usize);
+        let centres: Vec<Vec<i64>> = (0..nc)
+            .map(|_| (0..d).map(|_| r.gen_range(4..=76)).collect())
+            .collect();
+        let spread = r.gen_range(1..=4i64);
+        for _ in 0..n {
+            let c = &centres[r.gen_range(0..nc)];
+            pts.push(c.iter().map(|v| v + r.gen_range(-spread..=spread)).collect());
+        }
+    } else {
+        for _ in 0..n {
+            pts.push((0..d).map(|_| r.gen_range(0..=80)).collect());
+        }
+    }
+    let key = if r.gen_bool(0.6) { "euc2" } else { "man" };
+    // radius between 1/2 and 2 (Manhattan: 1/2 .. 3) in units of the half-integer grid
+    let eps = if key == "man" { r.gen_range(1..=6i64) } else { r.gen_range(1..=16i64) };
+    let min_pts = r.gen_range(1..=3usize);
+    let metric = if key == "euc2" {
+        "euclidean"
+    } else if r.gen_bool(0.5) {
+        "manhattan"
+    } else {
+        "minkowski1"
+    };
+    let ty = if r.gen_bool(0.2) { "f32" } else { "f64" };
+    let scale_exp = if r.gen_bool(0.7) { -1 } else { r.gen_range(-12..=12) };
+    // few query rows: the fit itself queries every training row
+    let mut qs = random_queries(r, &pts, key, eps);
+    qs.truncate(4);
+    Case {
+        ev: "Run".into(),
+        src: (if islands { "islands" } else { "spread" }).into(),
+        case: -1,
+        pts,
+        key: key.into(),
+        eps,
+        min_pts,
+        metric: metric.into(),
+        ty: ty.into(),
+        scale_exp,
+        qs,
+    }
+}
+
 fn ivec2(v: &Value) -> Vec<Vec<i64>> {
     v.as_array()
         .expect("array of points")
@@ -548,6 +604,14 @@ fn main() {
                 let n = r.gen_range(61..=150usize);
                 run += 1;
                 out.emit(run_case(&mut rn, run, &gen_case(&mut r, n)));
+            }
+            let nspread = match std::env::var("C13_SPREAD").ok().and_then(|v| v.parse::<usize>().ok()) {
+                Some(v) => v,
+                None => if th { 6000 } else { 800 },
+            };
+            for _ in 0..nspread {
+                run += 1;
+                out.emit(run_case(&mut rn, run, &gen_spread_case(&mut r)));
             }
             // parameters outside the statement's domain (recorded, nothing is demanded)
             for &(eps, mp) in [(0i64, 2usize), (-1, 2), (1, 0), (0, 0)].iter() {
